@@ -865,7 +865,7 @@ func TestProp(t *testing.T) {
 				ctx.Rec.Add("evy_run_exit_status_cases", 1)
 			}
 		}
-		if nout < outBudget && c.Class == "ok" && c.NumRange == nil && !strings.Contains(c.Src, "read") && rapid.IntRange(0, 40).Draw(t, "cliout") == 0 {
+		if nout < outBudget && c.Class == "ok" && c.NumRange == nil && !strings.Contains(c.Src, "read") && !strings.Contains(c.Src, "cls") && !strings.Contains(c.Src, "sleep") && rapid.IntRange(0, 40).Draw(t, "cliout") == 0 {
 			nout++
 			c.CLIOut = true
 			ctx.Rec.Add("evy_run_output_cases", 1)
